@@ -32,6 +32,9 @@ const (
 func countLines(r io.Reader) uint64 {
 	var count uint64
 	fileScanner := bufio.NewScanner(r)
+	// same limits as the reader in GetMessages: a line longer than the default
+	// 64 KiB token limit must still be counted
+	fileScanner.Buffer(make([]byte, 0, 64*1024), 1024*1024)
 
 	for fileScanner.Scan() {
 		count++
